@@ -16,7 +16,7 @@ manifest = {
         "enable": "no source hooks are needed: checks import pde from /repo's working tree "
         "(sys.path) and observe through public API and harness-side monkeypatches; "
         "the guard name is reserved and unused",
-        "baseline_off_cmd": "cd /repo && /venv/bin/python -m pytest -q -p no:cacheprovider -n 16 --timeout=900",
+        "baseline_off_cmd": "cd /repo && /venv/bin/python -m pytest -ra -q -p no:cacheprovider --timeout=900 --continue-on-collection-errors",
         "source_commits": [],
         "add_only": True,
     },
